@@ -20,7 +20,7 @@ model("Loop", module="usim._core.loop",
       fields={"time": REAL, "turn": INT, "activity": ANY,
               "_pending": LIST(ACT),
               "_activations": REF("WaitQueue")},
-      final=["_activations"])
+      final=["_activations"], none_as_empty=["_pending"])
 
 # abstract view of both WaitQueue back ends: key -> FIFO of activations (length 0 = key absent)
 model("WaitQueue", module="usim._core.waitq", fields={}, ghost={})
@@ -57,6 +57,23 @@ abstract_contract("WaitQueue", "push", ["key", "item"], allocates=False,
                   modifies=["WaitQueue.qlen@self", "WaitQueue.qitems@self"], no_invariants=True,
                   note="K1: interface both HQWaitQueue and SDWaitQueue are checked against")
 
+NONEMPTY = "exists(real, lambda k: self.qlen[k] >= 1)"
+abstract_contract("WaitQueue", "__bool__", [], allocates=False, pure=True,
+                  params={"self": REF("WaitQueue")}, returns=BOOL,
+                  ensures=["result == " + NONEMPTY], modifies=[], no_invariants=True,
+                  note="K1: checked for HQWaitQueue and SDWaitQueue in contracts/waitq.py")
+# pop: the smallest date that has an entry, with its complete FIFO in insertion order; only that date is removed
+abstract_contract("WaitQueue", "pop", [],
+                  params={"self": REF("WaitQueue")}, returns=PYTUP(REAL, LIST(ACT)),
+                  requires=[NONEMPTY],
+                  ensures=["old(self.qlen)[result[0]] >= 1",
+                           "forall(real, lambda k: implies(old(self.qlen)[k] >= 1, result[0] <= k))",
+                           "len(result[1]) == old(self.qlen)[result[0]]",
+                           "forall(int, lambda i: implies(0 <= i and i < len(result[1]), result[1][i] == old(self.qitems)[result[0]][i]))",
+                           "self.qlen == store(old(self.qlen), result[0], 0)"],
+                  modifies=["WaitQueue.qlen@self"], no_invariants=True,
+                  note="K1: checked for HQWaitQueue and SDWaitQueue in contracts/waitq.py")
+
 SCHED_PARAMS = {"self": REF("Loop"), "target": ANY, "signal": OPT(REF("Interrupt")), "delay": OPT(REAL), "at": OPT(REAL)}
 
 contract("usim._core.loop.Loop.schedule", allocates=False,
@@ -91,3 +108,65 @@ contract("usim._core.loop.Loop.schedule", allocates=False,
                    "Interrupt.scheduled@signal", "Interrupt.target@signal", "Interrupt.due@signal"],
          no_invariants=True,
          props=["C01", "C02", "C03"])
+
+
+# ---------------------------------------------------------------------------------------------- the event loop proper
+# What running one activation may do to the loop (interface to ALL code outside this function: activities and the
+# framework functions they call reach the loop only through Loop.schedule, whose contract is proved above):
+#   * the clock, the queue object and the pending FIFO object stay the same,
+#   * the pending FIFO and the queue's FIFOs only grow at their ends,
+#   * new queue entries lie strictly after the current time (usage assertions of Loop.schedule).
+RUN_CORO_EFFECT = [
+    "self.time == old(self.time)",
+    "len(self._pending) >= len(old(self._pending)) and self._pending[:len(old(self._pending))] == old(self._pending)",
+    "forall(real, lambda k: self._activations.qlen[k] >= old(self._activations.qlen)[k])",
+    "forall(real, lambda k: implies(self._activations.qlen[k] > old(self._activations.qlen)[k], k > self.time))",
+]
+contract("usim._core.loop.Loop._run_coroutine", assumed=True,
+         params={"self": REF("Loop"), "target": ANY, "signal": OPT(REF("Interrupt"))},
+         requires=["self is loop"],
+         ensures=RUN_CORO_EFFECT,
+         raises={"BaseException": dict(ensures=RUN_CORO_EFFECT)},
+         modifies=["Loop._pending@self", "Loop.turn@self", "Loop.activity@self", "WaitQueue.qlen@self._activations", "WaitQueue.qitems@self._activations"],
+         havoc_all=True, no_invariants=True,
+         note="ASSUMED interface to foreign code: everything an activation runs touches the loop only via Loop.schedule "
+              "(scan W: no other writer of Loop.time/_pending/_activations) and obeys schedule's usage assertions")
+
+contract("usim._core.loop.Loop._run_events",
+         params={"self": REF("Loop")},
+         requires=["self is loop", "self._activations is not None", "len(self._pending) == 0",
+                   # nothing is queued for a date before the start time (Loop.__init__ queues the roots at `start`)
+                   "forall(real, lambda k: self._activations.qlen[k] >= 0)",
+                   "forall(real, lambda k: implies(self._activations.qlen[k] >= 1, k >= self.time))"],
+         # C15: returns only at quiescence -- nothing queued, nothing pending; C01: the clock never ran backwards
+         ensures=["forall(real, lambda k: self._activations.qlen[k] == 0)", "len(self._pending) == 0", "self.time >= old(self.time)"],
+         raises={"BaseException": dict(ensures=["self.time >= old(self.time)"])},
+         loop_invariants={
+             # C01: between time steps every queued date lies strictly after the clock (first step: at or after it), so the
+             # next date popped is later than the current one and no work for the current date is left behind
+             "while#1": ["self is loop", "self._activations is activations", "self.time >= old(self.time)",
+                         # the clock only moves on when the FIFO of the current time step has been drained
+                         "len(self._pending) == 0",
+                         "forall(real, lambda k: self._activations.qlen[k] >= 0)",
+                         "forall(real, lambda k: implies(self._activations.qlen[k] >= 1, k >= self.time))"],
+             "while#2": ["self is loop", "self._activations is activations", "self.time == now", "now >= old(self.time)",
+                         "forall(real, lambda k: self._activations.qlen[k] >= 0)",
+                         "forall(real, lambda k: implies(self._activations.qlen[k] >= 1, k > self.time))"],
+         },
+         havoc_all=True,        # it runs every activity: no frame
+         no_invariants=True,
+         props=["C01", "C15"])
+
+# Loop.__init__: the roots are queued at `start`, in argument order; nothing else is queued
+contract("usim._core.loop.Loop.__init__",
+         params={"self": REF("Loop"), "coroutines": LIST(ANY), "start": REAL},
+         ensures=["self.time == start", "self.turn == 0", "self.activity is None", "self._activations is not None",
+                  "forall(real, lambda k: self._activations.qlen[k] == ite(k == start, len(coroutines), 0))",
+                  "forall(int, lambda i: implies(0 <= i and i < len(coroutines), "
+                  "       self._activations.qitems[start][i] == Activation(coroutines[i], None)))"],
+         loop_invariants={"for#1": [
+             "self.time == start", "self._activations is not None",
+             "forall(real, lambda k: self._activations.qlen[k] == ite(k == start, _i, 0))",
+             "forall(int, lambda i: implies(0 <= i and i < _i, self._activations.qitems[start][i] == Activation(coroutines[i], None)))"]},
+         no_invariants=True,
+         props=["C01", "C15", "C02"])
